@@ -6,7 +6,7 @@ CONSTANTS
  Vars = {"two"}
  Ns = {2}
  MsgVecs <- MV23
- CCoins <- AllZq
+ CCoins <- C6
  SCoins <- C2b
  Tamper = FALSE
  PowM <- TabPowM
